@@ -47,10 +47,10 @@ Print Assumptions c17_annotation_checked.
 (* the hypotheses are satisfiable, and the machine really runs the scenarios to completion *)
 Example ex_initial : initial (init_exec [2; 1]).
 Proof. constructor. Qed.
-Example ex_run_done : snd (run P 4000 (init_exec [2; 1]) [] 0 []) = Finished.
+Example ex_run_done : snd (run P 4000 (init_exec [2; 1]) [] 0 [] []) = Finished.
 Proof. vm_compute. reflexivity. Qed.
-Example ex_run_all_callbacks : map fst (ran (fst (fst (run P 4000 (init_exec [2; 1]) [1; 3; 0; 2; 2; 1] 0 [])))) =
-                               subm (fst (fst (run P 4000 (init_exec [2; 1]) [1; 3; 0; 2; 2; 1] 0 []))).
+Example ex_run_all_callbacks : map fst (ran (fst (fst (run P 4000 (init_exec [2; 1]) [1; 3; 0; 2; 2; 1] 0 [] [])))) =
+                               subm (fst (fst (run P 4000 (init_exec [2; 1]) [1; 3; 0; 2; 2; 1] 0 [] []))).
 Proof. vm_compute. reflexivity. Qed.
 
 (* ---- the code BEFORE fixes 01/02 (P_old), same machine: witness schedules.
@@ -59,23 +59,23 @@ Proof. vm_compute. reflexivity. Qed.
 (* FutureImpl::Set broadcast after unlocking: the getter returns, drops the last reference and the
    setter's Broadcast touches the freed FutureImpl (no spurious wake-up needed). *)
 Theorem c17_future_uaf_before_fix :
-  snd (run P_old 4000 init_fut_raw [500; 500; 1; 500; 500; 0] 0 []) = Faulted UseAfterFree /\
-  snd (run P 4000 init_fut_raw [500; 500; 1; 500; 500; 0] 0 []) = Finished.
+  snd (run P_old 4000 init_fut_raw [500; 500; 1; 500; 500; 0] 0 [] []) = Faulted UseAfterFree /\
+  snd (run P 4000 init_fut_raw [500; 500; 1; 500; 500; 0] 0 [] []) = Finished.
 Proof. split; vm_compute; reflexivity. Qed.
 Print Assumptions c17_future_uaf_before_fix.
 
 (* FutureImpl::Get waited once: a spurious wake-up makes Get return 0 before Set(42). *)
 Theorem c17_future_early_get_before_fix :
-  outs (fst (fst (run P_old 4000 init_fut_raw [500; 500; 500; 500; 1000] 0 []))) = [(0, OUT_GET, 0)] /\
-  outs (fst (fst (run P 4000 init_fut_raw [500; 500; 500; 500; 1000] 0 []))) = [(0, OUT_GET, THE_VALUE)].
+  outs (fst (fst (run P_old 4000 init_fut_raw [500; 500; 500; 500; 1000] 0 [] []))) = [(0, OUT_GET, 0)] /\
+  outs (fst (fst (run P 4000 init_fut_raw [500; 500; 500; 500; 1000] 0 [] []))) = [(0, OUT_GET, THE_VALUE)].
 Proof. split; vm_compute; reflexivity. Qed.
 Print Assumptions c17_future_early_get_before_fix.
 
 (* Thread::Start waited once: after a spurious wake-up Start returns with m_running still false, Stop
    does not join, and the consumer thread is left blocked for ever. *)
 Theorem c17_start_spurious_before_fix :
-  snd (run P_old 4000 (init_exec [1]) [500; 500; 500; 500; 1000] 0 []) = Deadlock /\
-  snd (run P 4000 (init_exec [1]) [500; 500; 500; 500; 1000] 0 []) = Finished.
+  snd (run P_old 4000 (init_exec [1]) [500; 500; 500; 500; 1000] 0 [] []) = Deadlock /\
+  snd (run P 4000 (init_exec [1]) [500; 500; 500; 500; 1000] 0 [] []) = Finished.
 Proof. split; vm_compute; reflexivity. Qed.
 Print Assumptions c17_start_spurious_before_fix.
 
